@@ -385,7 +385,11 @@ JFromAttributes(ev, opts) ==
       keep == CleanKeep(rows, coefs, rc)
       dupKept == ~Distinct([i \in 1..Len(keep) |-> rows[keep[i]]])
       dupAny == ~Distinct(rows)
-  IN IF lenBad \/ namesBad \/ dupKept THEN ExpectRaise(ev, "PolynomialConstructionError")
+      \* exponents that no polynomial can carry (negative, or beyond what a storage key can encode; the recorder clamps
+      \* them to -1 / ExpClamp): any error is right, a polynomial with some other exponent is not (C20)
+      unrepresentable == \E r \in 1..nr : \E j \in 1..Len(rows[r]) : rows[r][j] < 0 \/ rows[r][j] >= ExpClamp
+  IN IF unrepresentable THEN (IF ev.out = "raise" THEN "ok" ELSE "value_unrepresentable_exponent_accepted")
+     ELSE IF lenBad \/ namesBad \/ dupKept THEN ExpectRaise(ev, "PolynomialConstructionError")
      ELSE IF dupAny /\ ev.out = "raise" THEN ExpectRaise(ev, "PolynomialConstructionError")   \* duplicate among dropped zero terms: either outcome
      ELSE IF ev.out # "ret" THEN "raised"
      ELSE LET r == ev.res[1]
